@@ -18,24 +18,25 @@ import (
 
 // Prop is one property world: a workload + oracle executed once per run, driven by the tape.
 type Prop struct {
-	ID          string
-	Level       string // evidence level
-	Rule        string // how cases are generated and what makes one non-trivial/distinct
-	Assumptions []string
-	Real        []string // components that ran real code
-	Stub        []string // simulated / stubbed components
-	RealNoFault []string // real but un-faulted
-	Runs        map[string]int
-	WallCap     map[string]time.Duration // stop handing out runs after this (safety cap)
-	HangBudget  time.Duration            // per-run wall budget before the watchdog acts
-	Setup       func() error             // once per worker process
-	Run         func(r *Run)             // one run
-	Race        bool                     // worker must be the -race binary
-	Tool        string                   // worker is the tool harness test binary of this name ("" = vsim itself)
-	FatalIsViol bool                     // a reproducible worker death is a violation of this property
-	WantFaults  []string                 // fault kinds a thorough run is expected to fire (reach self-check)
-	WantProbes  []string
-	MemLimit    uint64 // RLIMIT_AS for workers (0 = default 12 GiB; ignored for race)
+	ID           string
+	Level        string // evidence level
+	Rule         string // how cases are generated and what makes one non-trivial/distinct
+	Assumptions  []string
+	Real         []string // components that ran real code
+	Stub         []string // simulated / stubbed components
+	RealNoFault  []string // real but un-faulted
+	Runs         map[string]int
+	WallCap      map[string]time.Duration // stop handing out runs after this (safety cap)
+	HangBudget   time.Duration            // per-run wall budget before the watchdog acts
+	Setup        func() error             // once per worker process
+	Run          func(r *Run)             // one run
+	Race         bool                     // worker must be the -race binary
+	Tool         string                   // worker is the tool harness test binary of this name ("" = vsim itself)
+	FatalIsViol  bool                     // a reproducible worker death is a violation of this property
+	FatalNoClaim bool                     // a reproducible worker death means "the tool did not succeed": counted, nothing demanded
+	WantFaults   []string                 // fault kinds a thorough run is expected to fire (reach self-check)
+	WantProbes   []string
+	MemLimit     uint64 // RLIMIT_AS for workers (0 = default 12 GiB; ignored for race)
 }
 
 var registry = map[string]*Prop{}
@@ -146,17 +147,17 @@ type wireSample struct {
 }
 
 type wireBatch struct {
-	Runs    int            `json:"runs"`
-	NonTriv int            `json:"nontriv"`
-	Sigs    []uint64       `json:"sigs"` // signatures of non-trivial runs
-	Faults  map[string]int `json:"faults"`
-	Probes  map[string]int `json:"probes"`
+	Runs    int              `json:"runs"`
+	NonTriv int              `json:"nontriv"`
+	Sigs    []uint64         `json:"sigs"` // signatures of non-trivial runs
+	Faults  map[string]int   `json:"faults"`
+	Probes  map[string]int   `json:"probes"`
 	Maxes   map[string]int64 `json:"maxes"`
-	SimNs   int64          `json:"simns"`
-	Steps   int64          `json:"steps"`
-	Samples []wireSample   `json:"samples"`
-	Aborts  []string       `json:"aborts"`
-	MaxRSS  int64          `json:"maxrss"`
+	SimNs   int64            `json:"simns"`
+	Steps   int64            `json:"steps"`
+	Samples []wireSample     `json:"samples"`
+	Aborts  []string         `json:"aborts"`
+	MaxRSS  int64            `json:"maxrss"`
 }
 
 func setMemLimit(p *Prop) {
